@@ -280,6 +280,17 @@ func (q *Deque) SetMinCapacity(minCapacityExp uint) {
 	} else {
 		q.minCap = minCapacity
 	}
+	// A buffer that is already allocated and smaller than the new minimum is
+	// replaced by one of the minimum size, so that Cap() is never below it.
+	if len(q.buf) != 0 && len(q.buf) < q.minCap {
+		newBuf := make([]interface{}, q.minCap)
+		for i := 0; i < q.count; i++ {
+			newBuf[i] = q.buf[(q.head+i)&(len(q.buf)-1)]
+		}
+		q.head = 0
+		q.tail = q.count
+		q.buf = newBuf
+	}
 }
 
 // prev returns the previous buffer position wrapping around buffer.
